@@ -62,7 +62,25 @@ def user_names(d, case=None):
     return out
 
 
-def make_record(gen, idx, case, d, mode, nexec, rng, hashseed, want_tree=True, want_flow=False):
+def rollup_check(metrics, tinfo):
+    """independent roll-up of the executed dump: sum over blocks of max over components of the sum over the
+    block's Einsums of metrics[e][c]["time"]; compared with metrics["time"] as the program computed it"""
+    try:
+        total = 0
+        for b in tinfo["blocks"]:
+            per = {}
+            for e in b:
+                for c in tinfo["comps"].get(e, []):
+                    per[c] = per.get(c, 0) + metrics[e][c]["time"]
+            total += max(per.values()) if per else 0
+        got = metrics.get("time")
+        ok = got is not None and abs(got - total) <= 1e-9 * max(1.0, abs(total))
+        return dict(ok=ok, program=got, independent=total, blocks=metrics.get("blocks"))
+    except Exception as e:
+        return dict(ok=False, error="%s: %s" % (type(e).__name__, str(e)[:200]))
+
+
+def make_record(gen, idx, case, d, mode, nexec, rng, hashseed, want_tree=True, want_flow=False, want_time=False):
     import specs, gens, export
     rec = dict(gen=gen, idx=idx, mode=mode, hashseed=hashseed, yaml=d, case=case, ok=False)
     c = specs.compile_spec(d, mode)
@@ -77,6 +95,12 @@ def make_record(gen, idx, case, d, mode, nexec, rng, hashseed, want_tree=True, w
         except export.ExportError as e:
             rec["tree_error"] = str(e)
     rec["user"] = user_names(d, case)
+    if want_time and mode == "metrics":
+        import metricsinfo
+        try:
+            rec["time"] = metricsinfo.time_info(c.hf, d)
+        except Exception as e:
+            rec["time_error"] = "%s: %s" % (type(e).__name__, str(e)[:200])
     if want_flow:
         import flow
         try:
@@ -97,6 +121,8 @@ def make_record(gen, idx, case, d, mode, nexec, rng, hashseed, want_tree=True, w
                 ex["cmp"] = gens.compare(case, r, inputs) if r.ok else []
                 ex["outputs"] = {k: [[list(p), v] for p, v in pts.items()] for k, pts in r.outputs.items()}
                 ex["activities"] = len(r.rec.activities)
+                if r.ok and mode == "metrics" and isinstance(r.globals.get("metrics"), dict) and "time" in rec:
+                    ex["rollup"] = rollup_check(r.globals["metrics"], rec["time"])
             except Exception as e:   # harness failure, not a verdict
                 ex["harness_error"] = traceback.format_exc(limit=3)
             rec["execs"].append(ex)
@@ -117,7 +143,7 @@ def worker(job, outpath):
                         continue
                     for mode in specs.modes_of(d):
                         if mode in modes:
-                            rec = make_record("corpus:" + name, 0, None, d, mode, 0, rng, hs, want_flow=item.get("flow", False))
+                            rec = make_record("corpus:" + name, 0, None, d, mode, 0, rng, hs, want_flow=item.get("flow", False), want_time=item.get("time", False))
                             out.write(json.dumps(rec) + "\n")
                 continue
             if gen == "g7":
@@ -137,7 +163,7 @@ def worker(job, outpath):
                             continue
                         gens.add_spacetime(rng, cc, lo)
                         dd = gens.to_yaml_dict(cc)
-                    rec = make_record(gen, i, cc, dd, mode, nexec, rng, hs, want_flow=item.get("flow", False))
+                    rec = make_record(gen, i, cc, dd, mode, nexec, rng, hs, want_flow=item.get("flow", False), want_time=item.get("time", False))
                     out.write(json.dumps(rec) + "\n")
 
 
